@@ -389,6 +389,11 @@ def programs(tier):
     reg("blockwise(np.transpose,'ji',x2x2,'ij')", lambda w, E: p_blockwise_T(w, E, source(w, E, "x", (2, 2))), 3)
     reg("blockwise(np.transpose,'ji',x2x2,'ij')[[1,0]]", lambda w, E: p_take(w, E, p_blockwise_T(w, E, source(w, E, "x", (2, 2))), 0, [1, 0]), 8)
     reg("blockwise(np.transpose,'ji',x2x2,'ij')[a:b,i]", lambda w, E: p_slice(w, p_blockwise_T(w, E, source(w, E, "x", (2, 2))), raw_index(E, (F, "i"))), 6)
+    # nested-op fusion
+    reg("transpose(transpose(x2x1x2,(1,2,0)),(0,2,1))", lambda w, E: p_transpose(w, p_transpose(w, source(w, E, "x", (2, 1, 2)), (1, 2, 0)), (0, 2, 1)), 3)
+    reg("transpose(transpose(x2x2,(1,0)),(1,0))", lambda w, E: p_transpose(w, p_transpose(w, source(w, E, "x", (2, 2)), (1, 0)), (1, 0)), 2)
+    reg("expand_dims(expand_dims(x2,(0,)),(2,))", lambda w, E: p_expand(w, p_expand(w, source(w, E, "x", (2,)), (0,)), (2,)), 2)
+    reg("transpose(expand_dims(x2x2,(0,)),(2,0,1))[a:b]", lambda w, E: p_slice(w, p_transpose(w, p_expand(w, source(w, E, "x", (2, 2)), (0,)), (2, 0, 1)), raw_index(E, (F,))), 5)
     # every pushdown target once: slice over X and rechunk over X
     reg("expand_dims(x2x2,(1,))[a:b,:,i]", lambda w, E: p_slice(w, p_expand(w, source(w, E, "x", (2, 2)), (1,)), raw_index(E, (F, (0, 0, None), "i"))), 4)
     reg("broadcast_to(x2,(n,)+shape)[i,a:b]", lambda w, E: p_slice(w, p_broadcast(w, source(w, E, "x", (2,)), (E.int("lead", 1),)), raw_index(E, ("i", F))), 4)
